@@ -1,9 +1,353 @@
-(* C04 — change detection is exact.  Only statements here; proofs in Proofs/. (stub, being filled) *)
+(* C04 — change detection is exact: own writes invisible, diffs sound and complete.
+   Only statements here; proofs in Proofs/C04*.v.  Models: Model/Diff.v (diffs.diff_iter / reduce_iter),
+   Model/Storage.v (DiffBaseStorage.build = dbuild, ProgressStorage.clear = pclear, stores, marker),
+   Model/Essence.v (old/new/diff as processing.py computes them, adjust_cause), Model/OwnWrites.v.
+   All quantifiers are unbounded (every json body of any nesting, every prefix, every digest oracle dg). *)
 From Coq Require Import ZArith NArith List String Bool Ascii.
 From KV Require Import Base.Json Base.Dicts Model.Keys Model.Storage Model.Diff Model.Essence Model.OwnWrites.
+From KV Require Import Proofs.C04Diff Proofs.C04Reduce Proofs.C04System Proofs.C04Own Proofs.C04Bridge Proofs.C04Main Proofs.C04Witness.
 Import ListNotations.
 Open Scope string_scope.
+Open Scope list_scope.
 
-Example C04_stub : diff (JObj [("x", JNull)]) (JObj []) = [].
-Proof. vm_compute. exact eq_refl. Qed.
-Print Assumptions C04_stub.
+(* ======================= diffs ======================= *)
+(* Full statement "diff a b = [] <-> a = b (JSON equality)" and "apply_diff (diff a b) a = b" are FALSE of the
+   faithful model (known finding F3): *)
+Theorem C04_diff_strict_refuted : exists a b, diff a b = [] /\ jeqb a b = false.
+Proof. exact diff_strict_refuted. Qed.
+Print Assumptions C04_diff_strict_refuted.
+
+Theorem C04_diff_strict_bool_refuted :
+  diff (JObj [("x", JNum 1)]) (JObj [("x", JBool true)]) = [] /\
+  jeqb (JObj [("x", JNum 1)]) (JObj [("x", JBool true)]) = false.
+Proof. exact diff_bool_int_refuted. Qed.
+Print Assumptions C04_diff_strict_bool_refuted.
+
+(* ... they hold exactly modulo deq (Model/Diff.v): Python ==, or mappings agreeing key by key with a
+   null-valued key counting as absent.  wf = object keys unique (always true of parsed JSON). *)
+Theorem C04_diff_complete : forall a b, wf a = true -> wf b = true -> (diff a b = [] <-> deq a b).
+Proof. exact diff_complete. Qed.
+Print Assumptions C04_diff_complete.
+
+Theorem C04_diff_sound : forall a b, wf a = true -> wf b = true -> deq (apply_diff (diff a b) a) b.
+Proof. exact diff_sound. Qed.
+Print Assumptions C04_diff_sound.
+
+(* the equivalence is not trivial, and does conflate null with absent *)
+Theorem C04_deq_not_trivial : ~ deq (JObj [("x", JNum 1)]) (JObj [("x", JNum 2)]).
+Proof. exact deq_not_trivial. Qed.
+Print Assumptions C04_deq_not_trivial.
+
+Theorem C04_deq_null_absent : deq (JObj [("x", JNull)]) (JObj []).
+Proof. exact deq_null_absent. Qed.
+Print Assumptions C04_deq_null_absent.
+
+(* an update cause (for an object with a last-handled state) iff old and new differ essentially *)
+Theorem C04_update_iff_essential_change : forall old new, wf old = true -> wf new = true ->
+  (classify_change (Some old) (diff old new) = KUpdate <-> ~ deq old new).
+Proof. exact classify_update_iff. Qed.
+Print Assumptions C04_update_iff_essential_change.
+
+(* ======================= reduce / field handlers ======================= *)
+Theorem C04_reduce_exact : forall a b p, wf a = true -> wf b = true ->
+  reduce (diff a b) p = diff (resolve_d a p) (resolve_d b p).
+Proof. exact reduce_exact. Qed.
+Print Assumptions C04_reduce_exact.
+
+Theorem C04_field_handler_exact : forall old new p, wf old = true -> wf new = true ->
+  adjust_cause p (Some old) new (diff old new)
+  = (resolve_d old p, resolve_d new p, diff (resolve_d old p) (resolve_d new p)).
+Proof. exact field_handler_exact. Qed.
+Print Assumptions C04_field_handler_exact.
+
+Theorem C04_field_handler_exact_create : forall new p, wf new = true ->
+  adjust_cause p None new (diff JNull new) = (JNull, resolve_d new p, diff JNull (resolve_d new p)).
+Proof. exact field_handler_exact_create. Qed.
+Print Assumptions C04_field_handler_exact_create.
+
+Example C04_reduce_exact_ex :
+  reduce (diff (JObj [("spec", JObj [("a", JNum 1); ("b", JNum 2)])])
+               (JObj [("spec", JObj [("a", JNum 3); ("b", JNum 2)])])) ["spec"; "a"]
+  = [mk_ditem DChange [] (JNum 1) (JNum 3)].
+Proof. exact reduce_exact_ex. Qed.
+Print Assumptions C04_reduce_exact_ex.
+
+(* ======================= system fields never count ======================= *)
+(* every storage configuration ds/ps (any nesting of Multi), every body; extra = the handlers' fields *)
+Theorem C04_system_fields_invisible_status : forall dg ds ps kvs s extra,
+  (forall f, In f extra -> hd_error f <> Some "status") ->
+  essence dg ds ps (JObj (set "status" s kvs)) extra = essence dg ds ps (JObj kvs) extra.
+Proof. exact system_status_invisible. Qed.
+Print Assumptions C04_system_fields_invisible_status.
+
+Theorem C04_system_fields_invisible_status_removed : forall dg ds ps kvs extra,
+  (forall f, In f extra -> hd_error f <> Some "status") ->
+  essence dg ds ps (JObj (del "status" kvs)) extra = essence dg ds ps (JObj kvs) extra.
+Proof. exact system_status_del_invisible. Qed.
+Print Assumptions C04_system_fields_invisible_status_removed.
+
+Theorem C04_system_fields_invisible_apiversion : forall dg ds ps kvs s extra,
+  (forall f, In f extra -> hd_error f <> Some "apiVersion") ->
+  essence dg ds ps (JObj (set "apiVersion" s kvs)) extra = essence dg ds ps (JObj kvs) extra.
+Proof. exact system_apiversion_invisible. Qed.
+Print Assumptions C04_system_fields_invisible_apiversion.
+
+(* resourceVersion, generation, uid, managedFields, finalizers, deletionTimestamp, ...: every metadata key
+   except labels / annotations (essential) and ownerReferences (selects the -ofDRS storage keys) *)
+Theorem C04_system_fields_invisible_metadata : forall dg ds ps kvs md k v extra,
+  lookup "metadata" kvs = Some (JObj md) ->
+  k <> "labels" -> k <> "annotations" -> k <> "ownerReferences" ->
+  (forall f, In f extra -> hd_error f <> Some "metadata") ->
+  essence dg ds ps (JObj (set "metadata" (JObj (set k v md)) kvs)) extra = essence dg ds ps (JObj kvs) extra.
+Proof. exact system_metadata_invisible. Qed.
+Print Assumptions C04_system_fields_invisible_metadata.
+
+Theorem C04_system_fields_invisible_metadata_removed : forall dg ds ps kvs md k extra,
+  lookup "metadata" kvs = Some (JObj md) ->
+  k <> "labels" -> k <> "annotations" -> k <> "ownerReferences" ->
+  (forall f, In f extra -> hd_error f <> Some "metadata") ->
+  essence dg ds ps (JObj (set "metadata" (JObj (del k md)) kvs)) extra = essence dg ds ps (JObj kvs) extra.
+Proof. exact system_metadata_del_invisible. Qed.
+Print Assumptions C04_system_fields_invisible_metadata_removed.
+
+(* ======================= payload always counts ======================= *)
+(* every top-level field other than apiVersion/kind/metadata/status that no configured field
+   (extra / ignored_fields / status storage field) reaches into is copied verbatim into the essence *)
+Theorem C04_payload_visible : forall dg ds ps kvs k extra e,
+  k <> "apiVersion" -> k <> "kind" -> k <> "metadata" -> k <> "status" ->
+  fields_avoid k ds ps extra ->
+  essence dg ds ps (JObj kvs) extra = Ok e ->
+  exists ekvs, e = JObj ekvs /\ lookup k ekvs = lookup k kvs.
+Proof. exact payload_visible. Qed.
+Print Assumptions C04_payload_visible.
+
+Theorem C04_payload_change_visible : forall dg ds ps kvs kvs' k extra e e',
+  k <> "apiVersion" -> k <> "kind" -> k <> "metadata" -> k <> "status" ->
+  fields_avoid k ds ps extra -> lookup k kvs <> lookup k kvs' ->
+  essence dg ds ps (JObj kvs) extra = Ok e -> essence dg ds ps (JObj kvs') extra = Ok e' -> e <> e'.
+Proof. exact payload_change_visible. Qed.
+Print Assumptions C04_payload_change_visible.
+
+(* ======================= own writes ======================= *)
+(* Full statement "every framework write leaves the essence unchanged" is FALSE of the faithful model:
+   F41 (the first marker under the diff-base prefix hides annotations that were visible) ... *)
+Theorem C04_own_writes_invisible_refuted :
+  exists ds ps body e b', essence w_dg ds ps body [] = Ok e /\ own_body_after w_dg ds ps body [OwDiffbase e] = Ok b' /\
+    res_jeqb (essence w_dg ds ps b' []) (Ok e) = false.
+Proof. exact own_writes_invisible_refuted. Qed.
+Print Assumptions C04_own_writes_invisible_refuted.
+
+(* ... and F42 (Multi diff-base storage, ReplicaSet of a Deployment, unmarkable prefix) *)
+Theorem C04_own_writes_multi_drs_refuted :
+  exists e b', essence w_dg w42_ds w41_ps w42_body [] = Ok e /\ own_body_after w_dg w42_ds w41_ps w42_body [OwDiffbase e] = Ok b' /\
+    res_jeqb (essence w_dg w42_ds w41_ps b' []) (Ok e) = false.
+Proof. exact own_writes_multi_drs_refuted. Qed.
+Print Assumptions C04_own_writes_multi_drs_refuted.
+
+(* Partial (annotation storages DAnn P / PAnn P', any prefixes, v1/v2, any body with a metadata mapping,
+   ignored_fields = extra_fields = []): the essence is a function of the VISIBLE annotations only ... *)
+Theorem C04_essence_depends_on_visible_annotations : forall dg P key v1 P' pv1 verbose tk kvs md A1 A2,
+  P' <> "" -> lookup "metadata" kvs = Some (JObj md) ->
+  filter (fun kv => vis P' (full_keys dg P v1 (body_with kvs md A1) key) A1 (fst kv)) A1
+  = filter (fun kv => vis P' (full_keys dg P v1 (body_with kvs md A2) key) A2 (fst kv)) A2 ->
+  essence dg (DAnn P key v1 []) (PAnn P' pv1 verbose tk) (body_with kvs md A1) []
+  = essence dg (DAnn P key v1 []) (PAnn P' pv1 verbose tk) (body_with kvs md A2) [].
+Proof. exact essence_ann_congr. Qed.
+Print Assumptions C04_essence_depends_on_visible_annotations.
+
+(* ... so writing or deleting ANY annotation under the progress prefix (records, touch-dummy, marker) ... *)
+Theorem C04_own_writes_invisible_progress : forall dg P key v1 P' pv1 verbose tk kvs md A k v,
+  P' <> "" -> lookup "metadata" kvs = Some (JObj md) ->
+  C04Own.no_slash P' = true -> under_prefix P' k = true ->
+  essence dg (DAnn P key v1 []) (PAnn P' pv1 verbose tk) (body_with kvs md (set k v A)) []
+  = essence dg (DAnn P key v1 []) (PAnn P' pv1 verbose tk) (body_with kvs md A) [].
+Proof. exact own_progress_write_invisible. Qed.
+Print Assumptions C04_own_writes_invisible_progress.
+
+Theorem C04_own_writes_invisible_progress_delete : forall dg P key v1 P' pv1 verbose tk kvs md A k,
+  P' <> "" -> lookup "metadata" kvs = Some (JObj md) ->
+  C04Own.no_slash P' = true -> under_prefix P' k = true ->
+  essence dg (DAnn P key v1 []) (PAnn P' pv1 verbose tk) (body_with kvs md (del k A)) []
+  = essence dg (DAnn P key v1 []) (PAnn P' pv1 verbose tk) (body_with kvs md A) [].
+Proof. exact own_progress_delete_invisible. Qed.
+Print Assumptions C04_own_writes_invisible_progress_delete.
+
+(* ... the last-handled annotation (own diff-base key), unless it marks a prefix not marked before ... *)
+Theorem C04_own_writes_invisible_diffbase : forall dg P key v1 P' pv1 verbose tk kvs md A k v,
+  P' <> "" -> lookup "metadata" kvs = Some (JObj md) ->
+  mem_str k (full_keys dg P v1 (body_with kvs md A) key) = true ->
+  (key_marks_prefix k = None \/ exists q, key_marks_prefix k = Some q /\ In q (marked_prefixes (keys A))) ->
+  essence dg (DAnn P key v1 []) (PAnn P' pv1 verbose tk) (body_with kvs md (set k v A)) []
+  = essence dg (DAnn P key v1 []) (PAnn P' pv1 verbose tk) (body_with kvs md A) [].
+Proof. exact own_diffbase_write_invisible. Qed.
+Print Assumptions C04_own_writes_invisible_diffbase.
+
+(* ... and the marker, exactly under the guard F41 violates: nothing under its prefix was visible before *)
+Theorem C04_own_marker_write_invisible_partial : forall dg P key v1 P' pv1 verbose tk kvs md A k v q,
+  P' <> "" -> lookup "metadata" kvs = Some (JObj md) ->
+  key_marks_prefix k = Some q ->
+  (forall j, In j (keys A) -> under_prefix q j = true ->
+     vis P' (full_keys dg P v1 (body_with kvs md A) key) A j = false) ->
+  essence dg (DAnn P key v1 []) (PAnn P' pv1 verbose tk) (body_with kvs md (set k v A)) []
+  = essence dg (DAnn P key v1 []) (PAnn P' pv1 verbose tk) (body_with kvs md A) [].
+Proof. exact own_marker_write_invisible. Qed.
+Print Assumptions C04_own_marker_write_invisible_partial.
+
+(* The same at the level of what kopf really does: the RFC 7386 merge of the patch that the storage
+   function itself produces (model functions pstore / ppurge / ptouch / dstore of Model/Storage.v). *)
+Theorem C04_own_progress_store_invisible : forall dg P key v1 P' pv1 verbose tk kvs md A hkey record p,
+  P' <> "" -> C04Own.no_slash P' = true ->
+  lookup "metadata" kvs = Some (JObj md) -> lookup "annotations" md = Some (JObj A) ->
+  pstore dg (PAnn P' pv1 verbose tk) hkey record (JObj kvs) (JObj []) = Ok p ->
+  essence dg (DAnn P key v1 []) (PAnn P' pv1 verbose tk) (merge (JObj kvs) p) []
+  = essence dg (DAnn P key v1 []) (PAnn P' pv1 verbose tk) (JObj kvs) [].
+Proof. exact own_progress_store_invisible. Qed.
+Print Assumptions C04_own_progress_store_invisible.
+
+Theorem C04_own_progress_store_invisible_first : forall dg P key v1 P' pv1 verbose tk kvs md hkey record p,
+  P' <> "" -> C04Own.no_slash P' = true ->
+  lookup "metadata" kvs = Some (JObj md) -> lookup "annotations" md = None ->
+  pstore dg (PAnn P' pv1 verbose tk) hkey record (JObj kvs) (JObj []) = Ok p ->
+  essence dg (DAnn P key v1 []) (PAnn P' pv1 verbose tk) (merge (JObj kvs) p) []
+  = essence dg (DAnn P key v1 []) (PAnn P' pv1 verbose tk) (JObj kvs) [].
+Proof. exact own_progress_store_invisible_first. Qed.
+Print Assumptions C04_own_progress_store_invisible_first.
+
+Theorem C04_own_progress_purge_invisible : forall dg P key v1 P' pv1 verbose tk kvs md A hkey p,
+  P' <> "" -> C04Own.no_slash P' = true ->
+  lookup "metadata" kvs = Some (JObj md) -> lookup "annotations" md = Some (JObj A) ->
+  ppurge dg (PAnn P' pv1 verbose tk) hkey (JObj kvs) (JObj []) = Ok p ->
+  essence dg (DAnn P key v1 []) (PAnn P' pv1 verbose tk) (merge (JObj kvs) p) []
+  = essence dg (DAnn P key v1 []) (PAnn P' pv1 verbose tk) (JObj kvs) [].
+Proof. exact own_progress_purge_invisible. Qed.
+Print Assumptions C04_own_progress_purge_invisible.
+
+Theorem C04_own_touch_invisible : forall dg P key v1 P' pv1 verbose tk kvs md A v p,
+  P' <> "" -> C04Own.no_slash P' = true -> is_obj v = false ->
+  lookup "metadata" kvs = Some (JObj md) -> lookup "annotations" md = Some (JObj A) ->
+  ptouch dg (PAnn P' pv1 verbose tk) (JObj kvs) (JObj []) v = Ok p ->
+  essence dg (DAnn P key v1 []) (PAnn P' pv1 verbose tk) (merge (JObj kvs) p) []
+  = essence dg (DAnn P key v1 []) (PAnn P' pv1 verbose tk) (JObj kvs) [].
+Proof. exact own_touch_invisible. Qed.
+Print Assumptions C04_own_touch_invisible.
+
+(* kopf's defaults: SmartProgressStorage *)
+Theorem C04_own_progress_store_invisible_smart :
+  forall dg P key v1 P' pv1 verbose tk field tf kvs md A hkey record p,
+  P' <> "" -> C04Own.no_slash P' = true -> hd_error field = Some "status" ->
+  lookup "metadata" kvs = Some (JObj md) -> lookup "annotations" md = Some (JObj A) ->
+  pstore dg (smart P' pv1 verbose tk field tf) hkey record (JObj kvs) (JObj []) = Ok p ->
+  essence dg (DAnn P key v1 []) (smart P' pv1 verbose tk field tf) (merge (JObj kvs) p) []
+  = essence dg (DAnn P key v1 []) (smart P' pv1 verbose tk field tf) (JObj kvs) [].
+Proof. exact own_progress_store_invisible_smart. Qed.
+Print Assumptions C04_own_progress_store_invisible_smart.
+
+Theorem C04_own_touch_invisible_smart :
+  forall dg P key v1 P' pv1 verbose tk field tf kvs md A v p,
+  P' <> "" -> C04Own.no_slash P' = true -> hd_error field = Some "status" -> is_obj v = false ->
+  lookup "metadata" kvs = Some (JObj md) -> lookup "annotations" md = Some (JObj A) ->
+  ptouch dg (smart P' pv1 verbose tk field tf) (JObj kvs) (JObj []) v = Ok p ->
+  essence dg (DAnn P key v1 []) (smart P' pv1 verbose tk field tf) (merge (JObj kvs) p) []
+  = essence dg (DAnn P key v1 []) (smart P' pv1 verbose tk field tf) (JObj kvs) [].
+Proof. exact own_touch_invisible_smart. Qed.
+Print Assumptions C04_own_touch_invisible_smart.
+
+(* the last-handled state: invisible once the diff-base prefix is marked on the object (the guard F41 needs) *)
+Theorem C04_own_diffbase_store_invisible_partial : forall dg P key v1 P' pv1 verbose tk kvs md A e p,
+  P <> "" -> C04Own.no_slash P = true -> P' <> "" ->
+  lookup "metadata" kvs = Some (JObj md) -> lookup "annotations" md = Some (JObj A) ->
+  In P (marked_prefixes (keys A)) ->
+  dstore dg (DAnn P key v1 []) (JObj kvs) (JObj []) e = Ok p ->
+  essence dg (DAnn P key v1 []) (PAnn P' pv1 verbose tk) (merge (JObj kvs) p) []
+  = essence dg (DAnn P key v1 []) (PAnn P' pv1 verbose tk) (JObj kvs) [].
+Proof. exact own_diffbase_store_invisible_partial. Qed.
+Print Assumptions C04_own_diffbase_store_invisible_partial.
+
+Theorem C04_own_diffbase_store_invisible_smart_partial :
+  forall dg P key v1 P' pv1 verbose tk field tf kvs md A e p,
+  P <> "" -> C04Own.no_slash P = true -> P' <> "" -> hd_error field = Some "status" ->
+  lookup "metadata" kvs = Some (JObj md) -> lookup "annotations" md = Some (JObj A) ->
+  In P (marked_prefixes (keys A)) ->
+  dstore dg (DAnn P key v1 []) (JObj kvs) (JObj []) e = Ok p ->
+  essence dg (DAnn P key v1 []) (smart P' pv1 verbose tk field tf) (merge (JObj kvs) p) []
+  = essence dg (DAnn P key v1 []) (smart P' pv1 verbose tk field tf) (JObj kvs) [].
+Proof. exact own_diffbase_store_invisible_smart_partial. Qed.
+Print Assumptions C04_own_diffbase_store_invisible_smart_partial.
+
+(* kopf's default progress storage (smart = annotations + no-write status) behaves as the annotations one *)
+Theorem C04_smart_progress_as_annotations : forall dg P key v1 P' pv1 verbose tk field tf nw kvs md A,
+  lookup "metadata" kvs = Some (JObj md) -> hd_error field = Some "status" ->
+  essence dg (DAnn P key v1 []) (PMulti [PAnn P' pv1 verbose tk; PStatus field tf nw]) (body_with kvs md A) []
+  = essence dg (DAnn P key v1 []) (PAnn P' pv1 verbose tk) (body_with kvs md A) [].
+Proof. exact essence_smart_eq. Qed.
+Print Assumptions C04_smart_progress_as_annotations.
+
+(* non-vacuity: a whole cycle of own writes under kopf's defaults changes the body, not the essence *)
+Example C04_own_cycle_invisible_ex :
+  match essence w_dg w_ds w_ps w_body [] with
+  | Ok e =>
+      match own_body_after w_dg w_ds w_ps w_body [OwStore "create_fn" w_record; OwDiffbase e; OwTouch (JStr "t")] with
+      | Ok b' => res_jeqb (essence w_dg w_ds w_ps b' []) (Ok e) && negb (jeqb b' w_body)
+                 && jeqb e (JObj [("spec", JObj [("field", JStr "v")]);
+                                  ("metadata", JObj [("labels", JObj [("app", JStr "v")]); ("annotations", JObj [("note", JStr "x")])])])
+      | _ => false
+      end
+  | _ => false
+  end = true.
+Proof. exact own_cycle_invisible_ex. Qed.
+Print Assumptions C04_own_cycle_invisible_ex.
+
+(* ======================= other Kopf operators ======================= *)
+(* Full statement "writes of every other Kopf operator are invisible" is FALSE (F5: prefix kopf.dev) *)
+Theorem C04_other_operator_refuted :
+  exists body ops b', own_body_after w_dg w_other_ds w_other_ps body ops = Ok b' /\
+    res_jeqb (essence w_dg w_ds w_ps b' []) (essence w_dg w_ds w_ps body []) = false.
+Proof. exact other_operator_refuted. Qed.
+Print Assumptions C04_other_operator_refuted.
+
+(* its root: _store_marker never marks a prefix starting with "kopf." *)
+Theorem C04_kopf_prefix_never_marked : forall prefix body patch,
+  str_prefix_of "kopf." prefix = true -> store_marker prefix body patch = Ok patch.
+Proof. exact kopf_prefix_never_marked. Qed.
+Print Assumptions C04_kopf_prefix_never_marked.
+
+(* Partial: with the marker q/kopf-managed on the object (every configuration, every body), nothing under
+   q/ reaches the essence; the same for kopf.zalando.org without a marker *)
+Theorem C04_other_operator_partial : forall dg ds ps kvs md anns q j extra e,
+  lookup "metadata" kvs = Some (JObj md) -> lookup "annotations" md = Some (JObj anns) ->
+  C04System.no_slash q = true -> In (q ++ "/" ++ marker_name)%string (keys anns) ->
+  under_prefix q j = true ->
+  (forall f, In f extra -> hd_error f <> Some "metadata") ->
+  essence dg ds ps (JObj kvs) extra = Ok e ->
+  resolve e ["metadata"; "annotations"; j] = None.
+Proof. exact other_operator_marked_absent. Qed.
+Print Assumptions C04_other_operator_partial.
+
+Theorem C04_other_operator_known_prefix_partial : forall dg ds ps kvs md anns n j extra e,
+  lookup "metadata" kvs = Some (JObj md) -> lookup "annotations" md = Some (JObj anns) ->
+  In (known_prefix ++ "/" ++ n)%string (keys anns) ->
+  under_prefix known_prefix j = true ->
+  (forall f, In f extra -> hd_error f <> Some "metadata") ->
+  essence dg ds ps (JObj kvs) extra = Ok e ->
+  resolve e ["metadata"; "annotations"; j] = None.
+Proof. exact other_operator_known_absent. Qed.
+Print Assumptions C04_other_operator_known_prefix_partial.
+
+(* and a write under an already marked prefix leaves the essence unchanged (annotation storages) *)
+Theorem C04_other_operator_write_invisible_partial : forall dg P key v1 P' pv1 verbose tk kvs md A q k v,
+  P' <> "" -> lookup "metadata" kvs = Some (JObj md) ->
+  In q (marked_prefixes (keys A)) -> under_prefix q k = true ->
+  (key_marks_prefix k = None \/ exists q', key_marks_prefix k = Some q' /\ In q' (marked_prefixes (keys A))) ->
+  essence dg (DAnn P key v1 []) (PAnn P' pv1 verbose tk) (body_with kvs md (set k v A)) []
+  = essence dg (DAnn P key v1 []) (PAnn P' pv1 verbose tk) (body_with kvs md A) [].
+Proof. exact other_operator_write_invisible. Qed.
+Print Assumptions C04_other_operator_write_invisible_partial.
+
+Example C04_other_operator_marked_ex :
+  match own_body_after w_dg (DAnn "my-op.example.com" "last-handled-configuration" true []) (PAnn "my-op.example.com" true false "touch-dummy")
+          w_body [OwStore "create_fn" w_record; OwDiffbase (JObj [("spec", JObj [])]); OwTouch (JStr "t")] with
+  | Ok b' => res_jeqb (essence w_dg w_ds w_ps b' []) (essence w_dg w_ds w_ps w_body []) && negb (jeqb b' w_body)
+  | _ => false
+  end = true.
+Proof. exact other_operator_marked_ex. Qed.
+Print Assumptions C04_other_operator_marked_ex.
